@@ -137,7 +137,7 @@ def run_pad(cfg):
     wx, wy = PAD_WIDTHS[wi]
     bw = permuted_dict({"X": wx, "Y": wy}, "boundary_width")
     r = pad(da, g, bw, boundary={"X": rx, "Y": ry}, fill_value={"X": PAD_FILLS[0][0], "Y": PAD_FILLS[0][1]})
-    return digest(tuple(sorted(r.dims)), r.transpose("face", "y", "x").values)
+    return digest(tuple(r.dims), r.values)
 
 
 # ------------------------------------------------------------------ driver (ii): equivalent()
@@ -286,7 +286,8 @@ def run_metric(cfg):
     arr = xr.DataArray(np.arange(8, dtype=float).reshape(2, 2, 2) + 1, dims=[S.dimname(a, "center") for a in ("X", "Y", "Z")])
     m = g.get_metric(arr, q)
     it = g.integrate(arr, list(q))
-    return digest(tuple(sorted(m.dims)), m.transpose(*sorted(m.dims)).values, it.values)
+    # dimension *order* and raw bytes are part of the outcome (byte-identical outputs are demanded)
+    return digest(tuple(m.dims), m.values, tuple(it.dims), it.values)
 
 
 DRIVERS = {"pad": run_pad, "equiv": run_equiv, "comodo": run_parse, "sgrid": run_parse, "metric": run_metric}
